@@ -72,13 +72,21 @@ func VerifC12NewReceiver(
 			return len(st.phaseSharesMessages) + len(st.phaseCommitmentsMessages)
 		}}
 	case "accuse":
-		st := &commitmentsVerificationState{member: cvm}
+		// accusers is what Initiate records before the member's own
+		// verification: the members operating at that moment.
+		st := &commitmentsVerificationState{
+			member:   cvm,
+			accusers: grp.OperatingMemberIndexes(),
+		}
 		return &VerifC12Receiver{st.Receive, func() int { return len(st.phaseAccusationsMessages) }}
 	case "points":
 		st := &pointsShareState{member: sm}
 		return &VerifC12Receiver{st.Receive, func() int { return len(st.phaseMessages) }}
 	case "paccuse":
-		st := &pointsValidationState{member: sm}
+		st := &pointsValidationState{
+			member:   sm,
+			accusers: grp.OperatingMemberIndexes(),
+		}
 		return &VerifC12Receiver{st.Receive, func() int { return len(st.phaseMessages) }}
 	case "reveal":
 		st := &keyRevealState{member: rm}
